@@ -27,12 +27,15 @@ def mutants():
   return '\n'.join(out)
 
 def seeded():
-  out = ['| seeded change | breaks | needs to manifest | caught by |', '|---|---|---|---|']
+  out = ['| seeded change | breaks | needs to manifest | first run (checks as they were then) | final checks | notes |',
+         '|---|---|---|---|---|---|']
   for f in sorted(glob.glob(os.path.join(HERE, 'seeded', '*', 'meta.json'))):
     m = json.load(open(f))
-    out.append('| seeded/%s | %s | %s | %s |' % (os.path.basename(os.path.dirname(f)), m.get('property'),
+    out.append('| seeded/%s | %s | %s | %s | %s | %s |' % (os.path.basename(os.path.dirname(f)), m.get('property'),
                str(m.get('needs_to_manifest', '')).replace('|', '/').replace('\n', ' ')[:300],
-               str(m.get('caught_by', 'not yet run')).replace('|', '/')))
+               str(m.get('caught_by', 'not yet run')).replace('|', '/')[:160],
+               str(m.get('caught_by_now', 'not re-run')).replace('|', '/')[:200],
+               str(m.get('notes', '')).replace('|', '/')))
   return '\n'.join(out)
 
 for name, fn in (('findings', findings), ('mutants', mutants), ('seeded', seeded)):
